@@ -660,6 +660,7 @@ structure PrefixLoaded (img : Bytes) (k : Nat) (o : Obj) : Prop where
   cls : o.cls = clsOf img
   enc : o.enc = encOf img
   trans : o.trans = []
+  len : img.length < 9223372036854775808
   inv : C01.ObjInv o (img.take k)
   nsecs : o.secs.length = eh img "e_shnum"
   secs : ∀ i (hi : i < o.secs.length), PSec img i o.secs[i]
@@ -671,7 +672,8 @@ structure PReady (img : Bytes) (i : Nat) (b : SecBuf) : Prop where
   fields : C17.SecZero b ∨ Fields img i b
   data : b.data = none ∨
     (Fields img i b ∧ occupiesFile (sh img i "sh_type") = true ∧ b.view = secFileBytes img i ∧
-      ∀ d, b.data = some d → d = b.view ++ [0] ∧ d.length = b.size.toNat + 1)
+      (∀ d, b.data = some d → d = b.view ++ [0] ∧ d.length = b.size.toNat + 1) ∧
+      b.size.toNat ≤ b.streamSize.toNat)
 
 theorem fields_of_same {img : Bytes} {i : Nat} {b' b : SecBuf} (h : Fields img i b)
     (e1 : b'.nameOff = b.nameOff) (e2 : b'.stype = b.stype) (e3 : b'.flags = b.flags) (e4 : b'.addr = b.addr)
@@ -692,7 +694,7 @@ theorem prefixLoaded_of_load (img : Bytes) (hwf : WellFormedImage img) (o : Obj)
   obtain ⟨f, hps⟩ := C17.prefix_sound o htr img k kind isLazy hlen rp rf hp hf hok
   obtain ⟨hl, hsec⟩ := C17.prefix_sound_section o htr img k kind isLazy hlen rp rf hp hf hok
   obtain ⟨_, _, _, _, ht⟩ := C01.load_inv o (img.take k) kind isLazy rp hp
-  refine ⟨hps.cls.trans hL.cls, hps.enc.trans hL.enc, ht.trans htr, C01.load_objInv o _ kind isLazy rp hp,
+  refine ⟨hps.cls.trans hL.cls, hps.enc.trans hL.enc, ht.trans htr, hlen, C01.load_objInv o _ kind isLazy rp hp,
     hl.trans hL.nsecs, ?_⟩
   intro i hi
   obtain ⟨bf, hbf, hz, hd, _⟩ := hsec i _ (List.getElem?_eq_getElem hi)
@@ -741,7 +743,7 @@ theorem prefix_secResident (img : Bytes) (k : Nat) (o : Obj) (hP : PrefixLoaded 
       exact (hnb hty).trans (hN ho)
   unfold secResident
   rw [List.getElem?_eq_getElem hi']
-  refine ⟨_, _, rfl, ⟨hP.cls, hP.enc, hP.trans, ⟨h1.data, ?_, hP.inv.segs⟩, by simp [hP.nsecs], ?_⟩, hset, ?_, ?_⟩
+  refine ⟨_, _, rfl, ⟨hP.cls, hP.enc, hP.trans, hP.len, ⟨h1.data, ?_, hP.inv.segs⟩, by simp [hP.nsecs], ?_⟩, hset, ?_, ?_⟩
   · intro b' hb'
     rcases List.mem_or_eq_of_mem_set hb' with hb' | rfl
     · exact hP.inv.secs b' hb'
@@ -766,12 +768,26 @@ theorem prefix_secResident (img : Bytes) (k : Nat) (o : Obj) (hP : PrefixLoaded 
           · rfl
         have h2' : LoadedSec [] (secGetData o.cls o.trans { st := o.stream } o.secs[i]).2 (img.take k) := by
           rw [← hP.trans]; exact h2
-        obtain ⟨e1, e2, _⟩ := C17.LoadedSec.prefix_exact h2' hd
+        obtain ⟨e1, e2, e3⟩ := C17.LoadedSec.prefix_exact h2' hd
         have hv : (secGetData o.cls o.trans { st := o.stream } o.secs[i]).2.view = secFileBytes img i := by
           unfold SecBuf.view secFileBytes
           rw [hd, if_pos hocc, ← hF.offset, ← hF.size, e1]
           exact List.take_left' e2
-        refine ⟨hF, hocc, hv, ?_⟩
+        refine ⟨hF, hocc, hv, ?_, ?_⟩
+        rotate_left
+        · -- the section lies inside the prefix, whose length is the recorded stream size
+          rcases h2'.ss with hss | ⟨_, _, hdn⟩
+          · rw [hss]
+            have hlk : (img.take k).length < 18446744073709551616 := by
+              have := hP.len; simp only [List.length_take]; omega
+            rw [toNat_ofNat_len hlk]
+            by_cases hz : (secGetData o.cls o.trans { st := o.stream } o.secs[i]).2.size = 0
+            · rw [hz]; simp
+            · have := e3 hz
+              rw [slice_length] at e2
+              simp only [List.length_take]
+              omega
+          · rw [hdn] at hd; cases hd
         intro d' hd'
         cases hd'
         have hv' : (secGetData o.cls o.trans { st := o.stream } o.secs[i]).2.view =
@@ -791,7 +807,7 @@ theorem prefix_strings_sound (img : Bytes) (k : Nat) (o : Obj) (hP : PrefixLoade
       (out = .null ∨ out = .str none ∨ out = .str (Spec.strAt (secFileBytes img i) idx.toNat)) := by
   by_cases hi : i < eh img "e_shnum"
   · obtain ⟨o1, b1, h1, hP1, hR⟩ := prefix_secResident img k o hP i hi
-    rcases hR.data with hd | ⟨_, _, hv, hn⟩
+    rcases hR.data with hd | ⟨_, _, hv, hn, _⟩
     · refine ⟨o1, .str none, ?_, hP1, Or.inr (Or.inl rfl)⟩
       simp only [inspect, h1, LoadTie.getString_hand, hd]; rfl
     · cases hd : b1.data with
@@ -821,6 +837,155 @@ example (k : Nat) (kind : StreamKind) (isLazy : Bool) (rp : LoadRes)
       (out = .null ∨ out = .str none ∨ out = .str (Spec.strAt (secFileBytes exImg 1) idx.toNat)) := by
   obtain ⟨o1, out, h, _, h'⟩ := prefix_strings_sound exImg k rp.obj
     (prefixLoaded_of_load exImg exImg_wf {} rfl k kind isLazy rp hp hok) 1 idx
+  exact ⟨o1, out, h, h'⟩
+
+/-! #### symbols on a truncated file -/
+
+theorem getSymbol_nodata (t : SymTab) (h : secData t.sym = none) (k : BitVec 64) (str : Bytes) (a : Attrs) :
+    t.getSymbol k str a = .ok (false, str, a) := by
+  rw [SymTie.getSymbol_unfold]
+  simp only [h, SymTab.guardNum, Option.isNone_none, if_true, bind, Except.bind, pure, Except.pure,
+    sym32_get_guard, sym64_get_guard, Bool.not_true, Bool.false_and, ite_self, Bool.false_eq_true, if_false]
+
+theorem symGetString_nodata (s : SecBuf) (h : secData s = none) (idx : BitVec 32) :
+    SymTab.getString (some s) idx = SymTab.getString none idx := by
+  simp only [SymTab.getString, h, str_get_oob, Option.isNone_none, Bool.or_true, if_true]
+
+/-- a linked string section without data answers like no string section at all -/
+theorem getSymbol_str_nodata (t : SymTab) (s : SecBuf) (ht : t.str = some s) (h : secData s = none)
+    (k : BitVec 64) (str : Bytes) (a : Attrs) :
+    t.getSymbol k str a = ({ t with str := none } : SymTab).getSymbol k str a := by
+  rw [SymTie.getSymbol_unfold, SymTie.getSymbol_unfold]
+  simp only [ht, symGetString_nodata s h]
+  rfl
+
+theorem readsAs_pready {img : Bytes} {i : Nat} {b : SecBuf} (hs : Settled b) (hv : b.view = secFileBytes img i)
+    (hn : ∀ d, b.data = some d → d = b.view ++ [0] ∧ d.length = b.size.toNat + 1) (d : Bytes) (hd : b.data = some d) :
+    ReadsAs b (secFileBytes img i) := by
+  obtain ⟨e1, e2⟩ := hn d hd
+  have hl : b.view.length = b.size.toNat := by rw [e1] at e2; simpa using e2
+  refine ⟨by rw [← hv, hl], ?_⟩
+  unfold secData
+  rw [getData_of_settled hs, hd]
+  simp only []
+  rw [← hv, e1]
+  exact ⟨by simp, by simp⟩
+
+/-- **prefix_symbols_sound** (C17 for symbol tables): on a prefix of a well-formed image that loads, for a
+    symbol table `i` as in `symbols_reports_spec`, every `get_symbol(k, …)` is refused with the out-parameters
+    untouched, or returns true/false exactly when the complete file's load does, with the complete file's
+    attributes (value, size, binding, type, section index, other) and with the complete file's name or — when the
+    linked string table's data is not in the prefix — the empty name.  `specSymbol img i k` is what the complete
+    file reports (`symbols_reports_spec`) and what the gABI says. -/
+theorem prefix_symbols_sound (img : Bytes) (hwf : WellFormedImage img) (k : Nat) (o : Obj) (hP : PrefixLoaded img k o)
+    (i : Nat) (hi : i < eh img "e_shnum") (hent : sh img i "sh_entsize" = Spec.symSize (clsOf img))
+    (idx : BitVec 64) :
+    ∃ o1 out, inspect o (.sym i idx) = .ok (o1, .sym out) ∧ PrefixLoaded img k o1 ∧
+      ((out.ret = false ∧ out.name = [] ∧ out.attrs = {}) ∨
+       (out.ret = (specSymbol img i idx.toNat).ret ∧ out.attrs = (specSymbol img i idx.toNat).attrs ∧
+         (out.name = [] ∨ out.name = (specSymbol img i idx.toNat).name))) := by
+  obtain ⟨o1, b1, h1, hP1, hR1⟩ := prefix_secResident img k o hP i hi
+  -- the accessor object
+  have hsetup : ∃ o2 str, symSetup o i = some (o2, { cfg := ⟨clsOf img, encOf img⟩, sym := b1, str := str, hash := none }) ∧
+      PrefixLoaded img k o2 ∧
+      (str = none → b1.data ≠ none → linkedBytes img i = []) ∧
+      (∀ s, str = some s → b1.data ≠ none → secData s = none ∨ ReadsAs s (linkedBytes img i)) := by
+    unfold symSetup
+    simp only [h1]
+    by_cases hl : symStrIdx b1 < eh img "e_shnum"
+    · obtain ⟨o2, s, h2, hP2, hR2⟩ := prefix_secResident img k o1 hP1 _ hl
+      refine ⟨o2, some s, by simp only [h2, hP2.cls, hP2.enc], hP2, fun h => (by cases h), ?_⟩
+      intro s' hs' hdn
+      cases hs'
+      have hF : Fields img i b1 := by
+        rcases hR1.data with hd | ⟨hF, _⟩
+        · exact absurd hd hdn
+        · exact hF
+      have hidx : symStrIdx b1 = linkIdx img i := by
+        unfold symStrIdx linkIdx
+        rw [← hF.link]
+        simp only [BitVec.toNat_setWidth, Nat.reducePow]
+      rcases hR2.data with hd | ⟨_, _, hv, hn, _⟩
+      · left; unfold secData; rw [getData_of_settled hR2.settled, hd]
+      · cases hd : s.data with
+        | none => left; unfold secData; rw [getData_of_settled hR2.settled, hd]
+        | some d =>
+          right
+          have := readsAs_pready hR2.settled hv hn d hd
+          rw [hidx] at this hl
+          simpa only [linkedBytes, hl, if_true] using this
+    · have hnone : secResident o1 (symStrIdx b1) = none := by
+        unfold secResident
+        rw [List.getElem?_eq_none (by rw [hP1.nsecs]; omega)]
+      refine ⟨o1, none, by simp only [hnone, hP1.cls, hP1.enc], hP1, ?_, fun s h => by cases h⟩
+      intro _ hdn
+      have hF : Fields img i b1 := by
+        rcases hR1.data with hd | ⟨hF, _⟩
+        · exact absurd hd hdn
+        · exact hF
+      have hidx : symStrIdx b1 = linkIdx img i := by
+        unfold symStrIdx linkIdx
+        rw [← hF.link]
+        simp only [BitVec.toNat_setWidth, Nat.reducePow]
+      rw [hidx] at hl
+      simp only [linkedBytes, hl, if_false]
+  obtain ⟨o2, str, hs, hP2, hstr0, hstr1⟩ := hsetup
+  -- the read-out
+  have hout : ∀ r : Bool × Bytes × Attrs,
+      ({ cfg := ⟨clsOf img, encOf img⟩, sym := b1, str := str, hash := none } : SymTab).getSymbol idx [] {} = .ok r →
+      inspect o (.sym i idx) = .ok (o2, .sym ⟨r.1, r.2.1, r.2.2⟩) := by
+    intro r hr
+    simp only [inspect, hs, getSym, hr]; rfl
+  cases hd : b1.data with
+  | none =>
+    have hg := getSymbol_nodata { cfg := ⟨clsOf img, encOf img⟩, sym := b1, str := str, hash := none }
+      (by unfold secData; rw [getData_of_settled hR1.settled]; exact hd) idx [] {}
+    exact ⟨o2, _, hout _ hg, hP2, Or.inl ⟨rfl, rfl, rfl⟩⟩
+  | some d =>
+    have hdn : b1.data ≠ none := by rw [hd]; exact fun h => by cases h
+    rcases hR1.data with hd' | ⟨hF, hocc, hv, hn, hss⟩
+    · exact absurd hd' hdn
+    · have hRA := readsAs_pready hR1.settled hv hn d hd
+      have hent' : b1.entSize = BitVec.ofNat 64 (SymTab.symSizeOf (clsOf img)) :=
+        ofNat_toNat64 _ _ (by rw [hF.entSize, hent, SymTab.symSizeOf_eq])
+      -- with the linked table's bytes, or with none of them
+      have hcases : (∃ strB, (strB = linkedBytes img i ∨ strB = []) ∧
+          ∃ t' : SymTab, t'.cfg = ⟨clsOf img, encOf img⟩ ∧ SymTab.Wf t' (secFileBytes img i) strB ∧
+            ({ cfg := ⟨clsOf img, encOf img⟩, sym := b1, str := str, hash := none } : SymTab).getSymbol idx [] {} =
+              t'.getSymbol idx [] {}) := by
+        cases hstr : str with
+        | none =>
+          exact ⟨linkedBytes img i, Or.inl rfl, _, rfl, ⟨hent', hss, hRA, by simp only [hstr0 hstr hdn]⟩, rfl⟩
+        | some s =>
+          rcases hstr1 s hstr hdn with hsn | hsr
+          · refine ⟨[], Or.inr rfl, { cfg := ⟨clsOf img, encOf img⟩, sym := b1, str := none, hash := none }, rfl,
+              ⟨hent', hss, hRA, rfl⟩, ?_⟩
+            exact getSymbol_str_nodata _ s rfl hsn idx [] {}
+          · exact ⟨linkedBytes img i, Or.inl rfl, _, rfl, ⟨hent', hss, hRA, hsr⟩, rfl⟩
+      obtain ⟨strB, hB, t', hcfg, hW, heq⟩ := hcases
+      have hg := SymTab.getSymbol_decoded hW idx [] {}
+      rw [hcfg] at hg
+      rw [← heq] at hg
+      refine ⟨o2, _, hout _ hg, hP2, Or.inr ?_⟩
+      unfold specSymbol
+      by_cases hk : idx.toNat < SymTab.countOf (clsOf img) (secFileBytes img i)
+      · rw [if_pos hk, if_pos hk]
+        refine ⟨rfl, rfl, ?_⟩
+        rcases hB with rfl | rfl
+        · exact Or.inr rfl
+        · left
+          simp [SymTab.nameAt, Spec.symStrAt]
+      · rw [if_neg hk, if_neg hk]
+        exact ⟨rfl, rfl, Or.inl rfl⟩
+
+example (k : Nat) (kind : StreamKind) (isLazy : Bool) (rp : LoadRes)
+    (hp : load {} { data := exImg.take k, kind := kind } isLazy = .ok rp) (hok : rp.ok = true) (idx : BitVec 64) :
+    ∃ o1 out, inspect rp.obj (.sym 2 idx) = .ok (o1, .sym out) ∧
+      ((out.ret = false ∧ out.name = [] ∧ out.attrs = {}) ∨
+       (out.ret = (specSymbol exImg 2 idx.toNat).ret ∧ out.attrs = (specSymbol exImg 2 idx.toNat).attrs ∧
+         (out.name = [] ∨ out.name = (specSymbol exImg 2 idx.toNat).name))) := by
+  obtain ⟨o1, out, h, _, h'⟩ := prefix_symbols_sound exImg exImg_wf k rp.obj
+    (prefixLoaded_of_load exImg exImg_wf {} rfl k kind isLazy rp hp hok) 2 (by decide +kernel) (by decide +kernel) idx
   exact ⟨o1, out, h, h'⟩
 
 end ElfioVerif.ComposeTables
